@@ -434,8 +434,8 @@ class Checker:
                 if all(self.finding_of(f) for f in v["fails"]) and self.report_finding(case, rec, v):
                     continue            # explained exactly by a deviation switch of the specification: a listed / proposed finding
                 pending.append((case, rec, v))
-        for case, rec, v in pending[:12]:
-            self.classify(case, rec, v, tag)
+        if pending:
+            self.classify(pending[:12], tag)
         if len(pending) > 12:
             self.rep.notes.append("%d further mismatching records were not analysed" % (len(pending) - 12))
         return recs, verdicts
@@ -449,32 +449,47 @@ class Checker:
             s["cli"] = {"cfg": rec["cli"][0]["cfg"], "stdout": bytes(rec["cli"][0]["out"][:160]).decode("latin1")}
         self.rep.sample(s, limit=6)
 
-    def classify(self, case, rec, v, tag):
-        """re-execute the smallest failing sub-case (second execution), shrink to one value, report"""
-        seen = set()
-        for fail in v["fails"]:
-            sub = part_case(case, fail)
-            key = json.dumps(sub, sort_keys=True)
-            if key in seen:
-                continue
-            seen.add(key)
-            recs2, vs2 = self.recheck([sub], tag + "r")
-            v2 = vs2[0]
+    def classify(self, pending, tag):
+        """second execution of the smallest failing sub-cases (one batch), shrink to one value (one batch), report"""
+        subs = []
+        for case, rec, v in pending:
+            seen = set()
+            for fail in v["fails"]:
+                fid = self.finding_of(fail)
+                if fid and self.listed.get(fid) != "fixed":
+                    continue
+                sub = part_case(case, fail)
+                key = json.dumps(sub, sort_keys=True)
+                if key not in seen and len(seen) < 2:
+                    seen.add(key)
+                    subs.append(sub)
+        recs2, vs2 = self.recheck(subs, tag + "r")
+        final, singles = [], []
+        for sub, r2, v2 in zip(subs, recs2, vs2):
             if v2.get("v") != "mismatch":
                 self.bump("not_reproduced")
-                self.rep.notes.append("a mismatch (%s) was not reproduced on the second execution: %s" % (fail["k"], show(case["vs"][0])))
+                self.rep.notes.append("a mismatch was not reproduced on the second execution: %s" % show((sub.get("vs") or [NULL])[0]))
                 self.not_reproduced = True
-                continue
-            # shrink to a single value when the sub-case has several
-            best, brec, bv = sub, recs2[0], v2
-            if len(sub.get("vs", [])) > 1:
-                singles = [dict(sub, vs=[x]) for x in sub["vs"]]
-                recs3, vs3 = self.recheck(singles, tag + "s")
-                for c3, r3, v3 in zip(singles, recs3, vs3):
+            elif len(sub.get("vs", [])) > 1:
+                singles.append((len(final), [dict(sub, vs=[x]) for x in sub["vs"]]))
+                final.append((sub, r2, v2))
+            else:
+                final.append((sub, r2, v2))
+        flat = [c for _, cs in singles for c in cs]
+        if flat:
+            recs3, vs3 = self.recheck(flat, tag + "s")
+            pos = 0
+            for idx, cs in singles:
+                for c3, r3, v3 in zip(cs, recs3[pos:pos + len(cs)], vs3[pos:pos + len(cs)]):
                     if v3.get("v") == "mismatch":
-                        best, brec, bv = c3, r3, v3
+                        final[idx] = (c3, r3, v3)
                         break
-            self.report(best, brec, bv)
+                pos += len(cs)
+        for sub, r2, v2 in final:
+            if len(self.rep.violations) >= 10:
+                self.rep.notes.append("more than 10 violations: the remaining reproduced mismatches are not listed")
+                break
+            self.report(sub, r2, v2)
 
     @staticmethod
     def finding_of(f):
